@@ -54,6 +54,7 @@ type Op struct {
 	OK           bool
 	Ret          net.IPNet
 	RetBlock     int
+	RetSpan      int // number of blocks the returned prefix covers (1 unless it is larger than the allocation size)
 	ErrStr       string
 	ErrNoAvail   bool
 	Call, Return int64
@@ -434,6 +435,21 @@ func (p Pool) drawFree(t *simrt.Tape, op *Op, held []int, everFreed []int, stric
 	if !strict {
 		kind = int(t.Draw(7))
 	}
+	if !strict && !p.V6 && t.Draw(8) == 0 {
+		// a genuine IPv6 prefix (not IPv4-mapped) whose low 32 bits are an address of the range: outside the pool
+		a := binary.BigEndian.Uint32(p.Start.To4())
+		if len(held) > 0 {
+			a += uint32(held[t.Pick(len(held))])
+		} else {
+			a += uint32(t.Pick(p.N))
+		}
+		ip := net.ParseIP([]string{"64:ff9b::", "2001:db8::", "fe80::"}[t.Pick(3)])
+		binary.BigEndian.PutUint32(ip[12:], a)
+		op.FreeArg = net.IPNet{IP: ip, Mask: net.CIDRMask(128, 128)}
+		op.FreeBlock = -1
+		op.FreeDesc = "foreign-family " + op.FreeArg.String()
+		return true
+	}
 	if kind <= 1 && len(held) == 0 {
 		if strict {
 			return false
@@ -609,16 +625,30 @@ func stepModel(prop string, n int, st state, op *Op) (bool, state, string) {
 				if !op.ErrNoAvail {
 					return false, st, fmt.Sprintf("Allocate on a full pool failed with %q instead of ErrNoAddrAvail", op.ErrStr)
 				}
+			case "C07":
+				if op.HintBlock >= 0 && !st.out[op.HintBlock] {
+					return false, st, fmt.Sprintf("hint named free block %d but Allocate failed (%s)", op.HintBlock, op.ErrStr)
+				}
 			}
 			return true, st, ""
 		}
 		if st.out[op.RetBlock] {
 			return false, st, fmt.Sprintf("Allocate returned block %d (%s) which is outstanding", op.RetBlock, op.Ret.String())
 		}
+		for b := op.RetBlock + 1; b < op.RetBlock+op.RetSpan && b < n; b++ {
+			// the returned prefix is larger than one block: it also covers these neighbours
+			if st.out[b] {
+				return false, st, fmt.Sprintf("Allocate returned %s, which covers block %d that is outstanding", op.Ret.String(), b)
+			}
+		}
 		if prop == "C07" && op.HintBlock >= 0 && !st.out[op.HintBlock] && op.RetBlock != op.HintBlock {
 			return false, st, fmt.Sprintf("hint named free block %d but Allocate returned block %d", op.HintBlock, op.RetBlock)
 		}
-		return true, st.with(op.RetBlock), ""
+		nst := st.with(op.RetBlock)
+		for b := op.RetBlock + 1; b < op.RetBlock+op.RetSpan && b < n; b++ {
+			nst = nst.with(b)
+		}
+		return true, nst, ""
 	}
 	held := op.FreeBlock >= 0 && st.out[op.FreeBlock]
 	if op.OK {
@@ -748,6 +778,14 @@ func RunHistory(o Options) *Result {
 				}()
 				op.Return = simrt.NextSeq()
 				if op.Alloc && op.OK {
+					op.RetSpan = 1
+					if ones, bits := op.Ret.Mask.Size(); pool.V6 && bits == 128 && ones < pool.Alloc {
+						if d := pool.Alloc - ones; d < 12 {
+							op.RetSpan = 1 << uint(d)
+						} else {
+							op.RetSpan = pool.N
+						}
+					}
 					op.RetBlock = pool.blockOf(op.Ret.IP)
 					if op.RetBlock >= 0 {
 						held = append(held, op.RetBlock)
